@@ -147,6 +147,13 @@ pub fn compare(got: &[DLayer], want: &[DLayer], named: &str) -> Option<(String, 
 		if g.extent != w.extent {
 			return Some((format!("{which}: extent changed"), format!("layer '{name}': {} vs {}", g.extent, w.extent)));
 		}
+		if g.version != w.version {
+			return Some((format!("{which}: version changed"), format!("layer '{name}': {} vs {}", g.version, w.version)));
+		}
+		// MVT 2.1, 4.1: "A layer MUST contain a version field" (required in the schema, whatever its value)
+		if w.has_version && !g.has_version {
+			return Some(("a layer that had the required version field is written without it".to_string(), format!("layer '{name}' (version {})", w.version)));
+		}
 		if g.features.iter().any(|f| f.bad_tags) {
 			return Some((format!("{which}: a feature references a key/value index outside the tables"), format!("layer '{name}'")));
 		}
